@@ -18,6 +18,7 @@ package blobserver
 
 import (
 	"context"
+	"sync"
 
 	"perkeep.org/pkg/blob"
 )
@@ -46,9 +47,12 @@ func mergedEnumerate(ctx context.Context, dest chan<- blob.SizedRef, nsrc int, g
 	defer cancel()
 
 	errch := make(chan error, nsrc+1) // +1 for nil
+	var wg sync.WaitGroup             // the running source enumerations
 	startEnum := func(source BlobEnumerator) *blob.ChanPeeker {
 		ch := make(chan blob.SizedRef, buffered)
+		wg.Add(1)
 		go func() {
+			defer wg.Done()
 			err := source.EnumerateBlobs(subctx, ch, after, limit)
 			if err != nil {
 				errch <- err
@@ -82,7 +86,10 @@ func mergedEnumerate(ctx context.Context, dest chan<- blob.SizedRef, nsrc int, g
 			}
 		}
 		if lowestIdx == -1 {
-			// all closed
+			// all closed. A source closes its channel before it
+			// returns: wait for the return values, so that an
+			// error is not lost.
+			wg.Wait()
 			break
 		}
 
